@@ -51,7 +51,6 @@ SIBLINGS = [
     ("math::log::methods::log_ur", "math::lg::methods::lg_ur", {"u64::checked_ilog10": "u64::checked_ilog2"}),
     ("math::log::methods::log_dd", "math::lg::methods::lg_dd", {"f64::log10": "f64::log2"}),
     ("string::match_replace::methods::internal::match_replace", "string::match_replace_once::methods::internal::match_replace_once", {"Regex::replace_all": "Regex::replace"}),
-    ("min_impl", "max_impl", {"CelValue::lt": "CelValue::gt"}),
     ("string::to_lower_impl", "string::to_upper_impl", {"str::to_lowercase": "str::to_uppercase"}),
     ("string::trim_impl", "string::trim_start_impl", {"str::trim": "str::trim_start"}),
     ("string::trim_impl", "string::trim_end_impl", {"str::trim": "str::trim_end"}),
@@ -78,8 +77,8 @@ def in_scope(b):
     if b.pkg != "rscel" or not b.path.startswith(PFX):
         return False
     rest = b.path[len(PFX):]
-    if not rest.startswith(("string::", "math::", "min_impl", "max_impl")):
-        return False   # time / uom rows belong to C16, size to C06, sort to C04
+    if not rest.startswith(("string::", "math::")):
+        return False   # time / uom rows belong to C16, size to C06, sort and min / max to C04 (R04.8, R04.9 decide them exactly)
     if re.search(r"(^|::)dispatch($|::\{closure)", rest):
         return False
     return True
